@@ -7,6 +7,12 @@ HERE = os.path.dirname(os.path.abspath(__file__))
 
 # property -> (technique, level text, level note, design ref)
 CLAIMED = {
+    "C20": (
+        "runtime differential monitor built once per floating-point backend {none, libm, mm, std} of retrofire-core (separate target directories): exhaustive bit-pattern sweep of floor/abs against std, congruence oracle for rem_euclid, dense sweeps of every approximate function the backend exports against f64 under a fixed per-backend bound table, and oracles for the library code that depends on them (tri_fill coverage, repeat-sampler addressing, normalize, Angle::wrap)",
+        "Per backend: floor and abs on f32 bit patterns with |x| < 2^31 — 2^28 stratified patterns quick, all 2^32 thorough — must equal std exactly; rem_euclid(x, m>0) in [0, m] and congruent on 2·10^6 pairs incl. exact negative multiples; sqrt, recip_sqrt, powf, exp, sin, cos, tan, asin, acos, atan2 (those the adapter module exports) on dense sweeps + random inputs against f64 with bounds: libm/std 4 ulp; mm sin/cos 2e-3, tan 1e-2 rel, sqrt/recip_sqrt 3e-3 rel, asin/acos 4e-2, atan2 5e-3, powf 3e-2; fallback recip_sqrt 4e-3 rel. Consequences per backend: tri_fill coverage vs the edge-function oracle, repeat sampler vs integer floor/mod incl. negative coordinates, normalize, Angle::wrap.",
+        "Bounds for the approximate functions are fixed in the monitor's table (the property gives classes, not numbers); worst observed error is reported beside each bound. 'Representable range' for floor/abs is |x| < 2^31.",
+        "DESIGN.md §5 C20",
+    ),
     "C08": (
         "runtime reference-model monitor: closed-form pinhole geometry in f64 as oracle for perspective/orthographic/viewport matrices (volume membership, depth bounds, depth order), for Camera::world_to_project (composition of the oracle's own matrices) and end to end (a sub-pixel triangle rendered through Camera::render must light the predicted pixel at the predicted reciprocal depth, only inside the viewport ∩ frame), and for FirstPerson poses (rigidity, axes, look_at, translate)",
         "Perspective: focal 0.05..20, aspect 0.1..10, near<far with ratios up to 1e4 — near/far map to z/w = ∓1, z/w increases with depth, a view point is inside the volume iff its clip coordinates satisfy −w ≤ x,y,z ≤ w, w > 0 (points within rounding of a face skipped); orthographic boxes anywhere in ±50; viewport rectangles up to 4000 px map the NDC square corners and centre exactly. First person: look_at (incl. straight up/down, axis-aligned, azimuth ±180°), rotate_to/rotate with wrap and clamp — world_to_view orthonormal with det +1, position ↦ origin, target ↦ (0,0,d), equals the closed-form pose (right = up × horizontal heading), translate moves along right/up/horizontal-forward. Camera: viewports inside and partly outside frames ≤ 64², perspective and orthographic, dims = the intersection, clip coordinates vs pinhole prediction, end-to-end render confined to the intersection.",
@@ -137,7 +143,7 @@ def main():
                 "thorough_cmd": "./check %s thorough" % p,
                 "evidence_file": "/verif/evidence/%s.json" % p,
                 "replay_cmd_template": "./check %s --replay {path}" % p,
-                "engine": "rfmon",
+                "engine": "rffp" if p == "C20" else "rfmon",
                 "level_claimed": {"category": "exploration", "text": text, "design_ref": ref},
                 "level_note": note,
                 "technique": tech,
@@ -161,8 +167,14 @@ def main():
             {
                 "name": "rfmon",
                 "path": "/verif/harness",
-                "serves_properties": sorted(CLAIMED),
+                "serves_properties": sorted(p for p in CLAIMED if p != "C20"),
                 "kind_free_text": "Rust monitor harness linked against /repo/core and /repo/geom by path (rebuilds from the working tree); reference-model, invariant and metamorphic oracles at the public API, panic capture, hostile seeded workloads sharded over 16 threads; built in two profiles (debug-assertions+overflow-checks, and plain release)",
+            },
+            {
+                "name": "rffp",
+                "path": "/verif/fpcfg",
+                "serves_properties": ["C20"],
+                "kind_free_text": "the C20 monitor, built four times against retrofire-core with features none | libm | mm | std into separate target directories (so cargo cannot unify the features); shares the rftk toolkit (/verif/tk) with rfmon",
             },
             {
                 "name": "check",
